@@ -556,7 +556,9 @@ Record replay := {
   rp_parents : list (nat * (list nat * option H.opkind));
   rp_stagn : list nat;             (* keeper's stagnation counter after each call *)
   rp_fault : option (nat * nat);   (* iteration callback raises at call k: (k, exception index) *)
-  rp_joblib_draws : list nat       (* os.urandom(16) calls made by joblib, per dispatcher call *)
+  rp_joblib_draws : list nat;      (* os.urandom(16) calls made by joblib, per dispatcher call *)
+  rp_iter_calls : list nat         (* random search: the add_to_history call made by iteration n (0 = none:
+                                      the mutation produced nothing, nothing was evaluated or recorded) *)
 }.
 
 Record case := {
@@ -595,12 +597,13 @@ Definition replay_oracles (rp : replay) (x : export) : oracles :=
        match rp_kind rp with
        | Populational => (inr (new_cands rp (nth n (rp_new rp) [])), 0)
        | RandomSearch =>
-           (* call n+1 records iteration n; a member seen before is the individual the mutation
-              handed back unchanged *)
-           (inr (flat_map (fun u => if existsb (Nat.eqb u) (nth (S n) (rp_new rp) [])
+           (* a member seen before is the individual the mutation handed back unchanged *)
+           let ci := nth n (rp_iter_calls rp) 0 in
+           if Nat.eqb ci 0 then (inr [], 0) else
+           (inr (flat_map (fun u => if existsb (Nat.eqb u) (nth ci (rp_new rp) [])
                                     then new_cands rp [u]
                                     else map Keep (lookup u (arch ++ pop)))
-                          (obs_gen x (S n))), 0)
+                          (obs_gen x ci)), 0)
        end;
      o_survive := fun _ n _ old evd arch => (lookups (obs_gen x n) (evd ++ old ++ arch), 0);
      o_keeper := fun n arch pop =>
@@ -622,11 +625,16 @@ Definition replay_config (rp : replay) : config :=
 (* in the replay an identifier is one stream element: the recorded canonical index *)
 Definition replay_platform : platform := {| uid_len := 1; encode := fun bs => hd 0 bs |}.
 
+(* the replayed stream: per history call the identifiers created for it, followed (parallel mode)
+   by the outputs joblib takes for the fan-out that evaluates them *)
+Definition replay_stream (rp : replay) : stream :=
+  let j := if in_parallel_mode (kpart (replay_config rp)) then joblib_uuid_draws (rp_n_jobs rp) else 0 in
+  (match rp_kind rp with RandomSearch => [0] | Populational => [] end)   (* choice(initial_graphs) *)
+  ++ flat_map (fun l => l ++ repeat 0 j) (rp_new rp).
+
 Definition replay_run (rp : replay) (x : export) : outcome :=
   fst (optimise current_code replay_platform (replay_config rp) 0
-                {| r_stream := (match rp_kind rp with RandomSearch => [0] | Populational => [] end)
-                                 ++ rp_created rp;      (* random search first draws choice(initial_graphs) *)
-                   r_ids := Mocked |} (replay_oracles rp x)
+                {| r_stream := replay_stream rp; r_ids := Mocked |} (replay_oracles rp x)
                 (S (S (length (x_gens x))))).
 
 Definition fit_values (f : E.fit) : option (list Q) :=
